@@ -94,4 +94,8 @@ let run (input : string) (obs : string) : string * string =
           if problems = [] then "pass" else "fail:" ^ String.concat "," (List.sort_uniq compare problems)
       end in
     ("-", verdict)
+  | "pinternal" ->
+    (* an internal consumer of keyset pagination (the traverser pages through subject sets 1000 at a time): the harness
+       compares what it returned with the stored rows; every row exactly once *)
+    ("SKIP", if obs = "complete" then "pass" else "fail:internal-pagination-lost-or-duplicated-rows")
   | x -> failwith ("PAGE: unknown op " ^ x)
